@@ -60,6 +60,7 @@ PROPS = {
     "C14": {
         "n": {"quick": 600, "thorough": 8000},
         "judge": True,
+        "shards": 8,
         "trivial_outs": {"", "i0"},
         "rule": "cases = fixed witnesses (F-14a, F-05d, F-14b, the unit tests of pubsub.rs) + random multi-connection histories (2-5 connections; SUB/PSUB/UNSUB/PUNSUB named, all and empty; UNSUBALL; PUB; observers) over colliding pools of 10 channels and 20 patterns, each ending with a dump of every connection, every channel count and one publish per channel + the matcher on ALL (pattern, text) pairs over the alphabet {a b * ? \\} up to length 4x4 (quick) / 5x5 (thorough) + random longer pairs with texts derived from the pattern; one evaluation = one PubSubManager call (or one pattern against all texts) compared between ferrous::pubsub and the extracted Gallina model; receiver lists sorted by connection, the reported pattern of a connection with several matching patterns is an oracle checked for admissibility",
         "explanation": "theorems: maps-consistency invariant over all histories, matcher = declarative glob (unbounded), publish delivers to exactly the connections with a matching subscription, once per connection (so the per-subscription claim is refuted: c14_delivery_refuted; partial theorem for at most one matching subscription), acknowledgement counts, nothing after unsubscribe / unsubscribe_all; tie: in-process differential run of PubSubManager + pattern_matches against the extracted model; property oracle (Redis glob semantics, per-subscription deliveries, acknowledgement counts) on the implementation's outputs",
